@@ -725,9 +725,73 @@ func judgePreflight(cfg *corsCfg, allowedMethods []string, acrm, acrh string, ou
 }
 
 // c09: preflight answered by the filter alone; grants only what is allowed.
+// preflightDuringRouteChanges: allowed methods are computed from the routes (none configured) of a WebService with dynamic
+// routes, and a DELETE route comes and goes while preflights ask for DELETE. Whether a preflight is granted depends on the
+// moment; but a grant is ONE statement: the methods it lists include the method it was asked for.
+func preflightDuringRouteChanges(ctx *core.Ctx, ci int, router string) {
+	c := restful.NewContainer()
+	if router == "jsr311" {
+		c.Router(restful.RouterJSR311{})
+	}
+	cors := restful.CrossOriginResourceSharing{AllowedDomains: []string{"http://example.com"}, AllowedHeaders: []string{"X-A", "X-B", "X-C"}, Container: c}
+	c.Filter(cors.Filter)
+	ws := new(restful.WebService).Path("/shift")
+	ws.SetDynamicRoutes(true)
+	ws.Route(ws.GET("/doc").To(func(req *restful.Request, resp *restful.Response) {}))
+	c.Add(ws)
+	var stop, bad int32
+	var first atomic.Value
+	var wg sync.WaitGroup
+	wg.Add(1)
+	go func() {
+		defer wg.Done()
+		for i := 0; i < 400 && atomic.LoadInt32(&bad) == 0; i++ {
+			ws.Route(ws.DELETE("/doc").To(func(req *restful.Request, resp *restful.Response) {}))
+			runtime.Gosched()
+			ws.RemoveRoute("/shift/doc", "DELETE")
+			runtime.Gosched()
+		}
+		atomic.StoreInt32(&stop, 1)
+	}()
+	for g := 0; g < 6; g++ {
+		wg.Add(1)
+		go func() {
+			defer wg.Done()
+			for atomic.LoadInt32(&stop) == 0 {
+				req := corsReq("OPTIONS", "/shift/doc", "http://example.com", "DELETE", "X-A, X-B, X-C, X-A, X-B, X-C, X-A, X-B, X-C")
+				out := rt.Run(c, rt.Dispatch, &req)
+				ctx.Eval(1)
+				ctx.Count("preflights_during_route_changes", 1)
+				h := out.Rec.Hdr()
+				if len(h["Access-Control-Allow-Origin"]) == 0 {
+					continue // refused at that moment
+				}
+				ctx.Count("preflights_granted_during_route_changes", 1)
+				listed := false
+				for _, v := range h["Access-Control-Allow-Methods"] {
+					for _, m := range rt.ParseAllow(v) {
+						if m == "DELETE" {
+							listed = true
+						}
+					}
+				}
+				if !listed && atomic.CompareAndSwapInt32(&bad, 0, 1) {
+					first.Store(fmt.Sprint(h["Access-Control-Allow-Methods"]))
+				}
+			}
+		}()
+	}
+	wg.Wait()
+	if atomic.LoadInt32(&bad) != 0 {
+		ctx.Violation(ci, "c09:grant-lists-other-methods:during-route-changes", fmt.Sprintf("a preflight asking for DELETE was granted with Access-Control-Allow-Methods %v while the DELETE route was being added and removed: the method it was asked for is not among the methods it allows", first.Load()),
+			map[string]interface{}{"router": router, "allow_methods": first.Load()})
+	}
+	ctx.Sig("preflight-during-route-changes|" + router)
+}
+
 func c09(ctx *core.Ctx) {
 	quietLogs()
-	ctx.Rule("generated CORS configurations x route tables (C17's fragment), both routers. Origins: an allowed front end, in two of seven configurations one on the request's own Host under the other scheme. Preflights: requested method from {GET,POST,PUT,DELETE,PATCH,HEAD, lower-case, unknown}, requested header lists (0-4 entries, any case, SP around commas, one foreign header at any position). Oracle: no later filter/handler event; grant => method within allowed methods (configured, or probed on a filter-less twin when unconfigured) and every header allowed; listed method + allowed headers => grant; refusal => zero Access-Control-* headers. A HandleWithFilter handler registered before the first filter: its preflight is answered by the filter alone, its actual request gets the grant once. Actual requests from allowed origins: chain continues like the twin and Allow-Origin/Credentials/Expose-Headers/Max-Age appear exactly once when configured. History: 30 preflights alternating over URLs with different method sets on ONE filter value, sequentially and from 8 goroutines (race detector on). Non-trivial = a judged preflight or actual request; distinct by (grant/refusal reason, configured vs computed methods, header list shape, history mode).")
+	ctx.Rule("generated CORS configurations x route tables (C17's fragment), both routers. Origins: an allowed front end, in two of seven configurations one on the request's own Host under the other scheme. Preflights: requested method from {GET,POST,PUT,DELETE,PATCH,HEAD, lower-case, unknown}, requested header lists (0-4 entries, any case, SP around commas, one foreign header at any position). Oracle: no later filter/handler event; grant => method within allowed methods (configured, or probed on a filter-less twin when unconfigured) and every header allowed; listed method + allowed headers => grant; refusal => zero Access-Control-* headers. A HandleWithFilter handler registered before the first filter: its preflight is answered by the filter alone, its actual request gets the grant once. Actual requests from allowed origins: chain continues like the twin and Allow-Origin/Credentials/Expose-Headers/Max-Age appear exactly once when configured. Now and then preflights for DELETE from 6 goroutines while the DELETE route of a dynamic WebService comes and goes: a grant lists the method it was asked for. History: 30 preflights alternating over URLs with different method sets on ONE filter value, sequentially and from 8 goroutines (race detector on). Non-trivial = a judged preflight or actual request; distinct by (grant/refusal reason, configured vs computed methods, header list shape, history mode).")
 	configs := ctx.N(300, 30000)
 	reqHeaders := []string{"Content-Type", "content-type", "ACCEPT", "X-Custom", "Authorization", "X-Evil", "x-custom", "Accept", "Language", "Content", "x-authorization-hint", "Hint", "accept-language"}
 	for ci := 0; ci < configs; ci++ {
@@ -753,6 +817,9 @@ func c09(ctx *core.Ctx) {
 			ctx.Count("configurations_on_the_package_level_container", 1)
 		}
 		ctx.Case(ci, core.JSON(p.cfg)+" table="+core.JSON(p.t))
+		if ci%30 == 4 || ci%30 == 19 {
+			preflightDuringRouteChanges(ctx, ci, router)
+		}
 		rr := ctx.Rand(ci, "req")
 		urls := urlsFor(rr, p.t, 12)
 		passes := 1
